@@ -2,6 +2,7 @@
  * C15: reference zstd coder for the tool-level checks, straight on libzstd (no code of /repo involved).
  *   c15_zstd_ref c [level]   compress stdin into one frame without content checksum (what libzstd does by default)
  *   c15_zstd_ref cc [level]  compress stdin into one frame with content checksum (what the zstd tool does)
+ *   (both: an optional third argument sets the window log, e.g. `cc 19 27`)
  *   c15_zstd_ref d           strictly expand stdin: any number of complete frames, nothing else; exit 1 = damaged,
  *                            exit 2 = ends inside a frame
  */
@@ -33,7 +34,8 @@ int main(int argc, char **argv)
 		unsigned char *o = malloc(cap ? cap : 1);
 		ZSTD_CCtx *c = ZSTD_createCCtx();
 		if (strcmp(argv[1], "cc") == 0) ZSTD_CCtx_setParameter(c, ZSTD_c_checksumFlag, 1);
-		if (argc > 2) ZSTD_CCtx_setParameter(c, ZSTD_c_compressionLevel, atoi(argv[2]));
+		if (argc > 2 && ZSTD_isError(ZSTD_CCtx_setParameter(c, ZSTD_c_compressionLevel, atoi(argv[2])))) return 4;
+		if (argc > 3 && ZSTD_isError(ZSTD_CCtx_setParameter(c, ZSTD_c_windowLog, atoi(argv[3])))) return 4;
 		r = ZSTD_compress2(c, o, cap, in, n);
 		if (ZSTD_isError(r)) return 1;
 		fwrite(o, 1, r, stdout);
